@@ -155,4 +155,27 @@ def ratIO (tol : Rat) : DblIO Rat where
   rowOk := fun r => !(r.any (fun x => decide (x < 0))) && decide (absR (sumQ r - 1) ≤ tol)
   sparseRowOk := fun r => decide (absR (sumQ r - 1) ≤ tol) && decide (absR (sumQ (r.map absR) - 1) ≤ tol)
 
+/-! ### decisions of a POMDP policy (`Policy::sampleAction(b, horizon)` = `findBestAtPoint`), exact-arithmetic reading -/
+
+def dotQ (b v : List Rat) : Rat := (List.zipWith (· * ·) b v).foldl (· + ·) 0
+
+/-- `veccmp(a, b) > 0` : at the first differing component `a` is larger -/
+def vecGt : List Rat → List Rat → Bool
+  | x :: xs, y :: ys => if x > y then true else if x < y then false else vecGt xs ys
+  | _, _ => false
+
+/-- `findBestAtPoint`: strictly better value wins; on an exact tie the lexicographically greater vector wins; else the earlier entry stays -/
+def bestEntry (b : List Rat) : VList Rat → Option (Nat × VEntry Rat)
+  | [] => none
+  | e :: es =>
+    some ((es.foldl (fun (acc : Nat × Nat × VEntry Rat) c =>
+      let (i, bi, be) := acc
+      let cv := dotQ b c.values
+      let bv := dotQ b be.values
+      if cv > bv || (cv == bv && vecGt c.values be.values) then (i + 1, i + 1, c) else (i + 1, bi, be)) (0, 0, e)).2)
+
+/-- (action, entry id) chosen at belief `b` with `h` steps to go -/
+def decision (vf : VF Rat) (h : Nat) (b : List Rat) : Option (Nat × Nat) :=
+  (bestEntry b (vf.getD h [])).map (fun ie => (ie.2.action, ie.1))
+
 end AITB.Codec
